@@ -137,8 +137,16 @@ def check_one(cfg, res):
     finally:
         rn.dgtsv = real
     x = rec["last"]
-    stored = float(np.sum(cap[: n - 1] * (x[: n - 1] - t_init)))
-    rec["checks"].append((rec["n"], stored, rec["elapsed"] - rec["out_sum"]))
+    t_label0 = float(rnb.t_s * np.exp(np.asarray(lntts, dtype=float)[-1])) if len(lntts) else 0.0
+    if x is None:
+        # the response came back without a single tridiagonal solve being seen (taken from a store of earlier responses): the
+        # balance cannot be observed; the response itself is still compared with the reference at the labelled time
+        res.bump("response_without_observed_solve")
+        rec["elapsed"] = t_label0 + dt
+        rec["steps_dt"].add(dt)
+    else:
+        stored = float(np.sum(cap[: n - 1] * (x[: n - 1] - t_init)))
+        rec["checks"].append((rec["n"], stored, rec["elapsed"] - rec["out_sum"]))
     # the time labels against the time the matrices actually marched: the tool labels the k-th solve (k-1) steps (a known one-step
     # offset, see DESIGN.md), so one step of slack is allowed and no more; the labelled period must reach the computed period
     dt_max = max(rec["steps_dt"])
